@@ -217,6 +217,7 @@ func histWorker(req N) (resp N) {
 	}
 	installHook(log)
 	var results []any
+	sp0 := machine.VerifSP()
 	base := 1 // the library run was invocation 1 of the VM: generations are offset by one
 	for i := 1; i <= n; i++ {
 		inv := invs[i-1].(N)
@@ -357,7 +358,7 @@ func histWorker(req N) (resp N) {
 				msg = msg[:120]
 			}
 		}
-		results = append(results, N{"obs": obs, "msg": msg})
+		results = append(results, N{"obs": obs, "msg": msg, "sp": machine.VerifSP()})
 	}
 	vm.VerifEvent = nil
 	// remap generations and contexts to 1..n (the library run used generation 1)
@@ -373,7 +374,7 @@ func histWorker(req N) (resp N) {
 		events = append(events, ev)
 	}
 	log.mu.Unlock()
-	return N{"k": "ok", "results": results, "events": events}
+	return N{"k": "ok", "results": results, "events": events, "sp0": sp0}
 }
 
 // ---------------------------------------------------------------- C06 scenarios
